@@ -50,9 +50,25 @@ func c29SecpGen(r *vu.RNG, n int, emit func(string)) {
 		emit("srecover " + h(msg) + " -")
 		emit("srecover " + h(msg) + " " + h(append(append([]byte{}, sig...), 0)))
 		emit("srecover " + h(msg[:31]) + " " + h(sig))
+		// honest signatures with the Ethereum-style recovery ids 27 and 28 (both parities), and 0/1
+		seen := map[byte]bool{}
+		for i := 0; i < 16 && len(seen) < 2; i++ {
+			m2 := make([]byte, 32)
+			m2[0] = byte(i + 1)
+			sg, _ := ethcrypto.Sign(m2, priv)
+			if seen[sg[64]] {
+				continue
+			}
+			seen[sg[64]] = true
+			emit("srecoverc " + h(m2) + " " + h(sg))
+			s27 := append([]byte{}, sg...)
+			s27[64] += 27
+			emit("srecover " + h(m2) + " " + h(s27))
+			emit("srecoverc " + h(m2) + " " + h(s27))
+		}
 		// x = r + n: recovery ids 2 and 3 with a tiny r
 		for v := byte(0); v < 4; v++ {
-			for _, rr := range []int64{1, 2, 3} {
+			for _, rr := range []int64{1, 2} {
 				emit("srecover " + h(msg) + " " + h(append(append(c29b32(big.NewInt(rr)), c29b32(big.NewInt(1))...), v)))
 			}
 		}
